@@ -4,4 +4,4 @@
 # Used to confirm that a `fix:` commit leaves the suite's result unchanged.
 T=${1:-/repo}
 cd "$T" && /venv/bin/python -m pytest -q -p no:cacheprovider --timeout=900 \
-  --continue-on-collection-errors -rA 2>&1 | grep -E '^(PASSED|FAILED|ERROR) ' | sed 's/ - .*//' | sort
+  --continue-on-collection-errors -rA 2>&1 | grep -E '^(PASSED|FAILED|ERROR) tests/' | sed 's/ - .*//' | sort
